@@ -10,8 +10,8 @@ CONSTANTS
   Removal = FALSE
   Remotes <- RemotesSome
   MaxWaits = 99
-  HistMax = 0
-  Emit = FALSE
+  HistMax = 100000
+  Emit = TRUE
   MaxAtt = 2
   Crashes = FALSE
   StartBy = 1
@@ -19,6 +19,7 @@ CONSTANTS
   HealOdds = 3
   ListLag = TRUE
   FixSkew = FALSE
+  Edge = FALSE
 VIEW View
-INVARIANTS TypeOK InvExclusion InvHolderHasFile InvNotStale InvFresh
+INVARIANTS TypeOK InvExclusion InvHolderHasFile InvNotStale InvFresh InvGoal5 InvGoal7 InvGoal8
 CHECK_DEADLOCK FALSE
